@@ -56,6 +56,37 @@ Theorem C02_tf_factor_formula :
 Proof. exact tf_adj_formula. Qed.
 Print Assumptions C02_tf_factor_formula.
 
+(* which level supplies u_exact: the level itself when exact-match detection is disabled; otherwise the
+   FIRST listed level that is an exact match on exactly the TF column.  A level that is an exact match
+   on several columns (forename AND surname) never supplies it, wherever it is listed. *)
+Theorem C02_u_exact_supplier :
+  forall ls l c,
+    (disable_exact_detect l = true -> u_exact ls l = Some (lu l)) /\
+    (disable_exact_detect l = false -> tf_col l = Some c ->
+     forall u, u_exact ls l = Some u <->
+       exists i s, nth_error ls i = Some s /\ exact_cols s = [c] /\ lu s = u /\
+                   forall j y, (j < i)%nat -> nth_error ls j = Some y -> exact_cols y <> [c]) /\
+    (forall s, (2 <= length (exact_cols s))%nat -> is_exact_on c s = false).
+Proof.
+  intros ls l c. split; [apply u_exact_disabled|]. split; [intros; apply u_exact_supplier; auto|].
+  intros; apply multi_column_level_never_supplies; auto.
+Qed.
+Print Assumptions C02_u_exact_supplier.
+
+(* the documented factor with that supplier: (u of the first single-column exact level / max(..))^w *)
+Theorem C02_tf_factor_formula_supplier :
+  forall pow tfs ls l cvv k tfl tfr l' r' i s,
+    tf_active l cvv = true -> tf_col l = Some k -> tfs k = (tfl, tfr) ->
+    coalesce2 tfl tfr = Some l' -> coalesce2 tfr tfl = Some r' ->
+    0 <= l' -> 0 <= r' -> 0 <= tf_min_u l ->
+    disable_exact_detect l = false ->
+    nth_error ls i = Some s -> exact_cols s = [k] ->
+    (forall j y, (j < i)%nat -> nth_error ls j = Some y -> exact_cols y <> [k]) ->
+    exists d, d == Qmax (Qmax l' r') (tf_min_u l) /\
+              tf_adj pow tfs ls l cvv = pow (lu s / d) (tf_w l).
+Proof. exact tf_adj_formula_supplier. Qed.
+Print Assumptions C02_tf_factor_formula_supplier.
+
 Theorem C02_no_tf_value_is_no_adjustment :
   forall pow tfs ls l cvv k, tf_col l = Some k -> tfs k = (None, None) -> tf_adj pow tfs ls l cvv = 1.
 Proof. exact tf_adj_no_tf_values. Qed.
@@ -177,18 +208,27 @@ Print Assumptions C02_waterfall_adds_up.
 (* ---- non-vacuity ------------------------------------------------------------------------ *)
 Local Open Scope Q_scope.
 Definition ex_null := {| lcond := 0; is_null := true; is_else := false; lm := 0; lu := 0; tf_col := None;
-                         tf_w := 1; tf_min_u := 0; disable_exact_detect := false; exact_col := None |}.
+                         tf_w := 1; tf_min_u := 0; disable_exact_detect := false; exact_cols := [] |}.
 Definition ex_exact := {| lcond := 1; is_null := false; is_else := false; lm := 9 # 10; lu := 1 # 10; tf_col := Some 0%nat;
-                          tf_w := 1; tf_min_u := 0; disable_exact_detect := false; exact_col := Some 0%nat |}.
+                          tf_w := 1; tf_min_u := 0; disable_exact_detect := false; exact_cols := [0%nat] |}.
 Definition ex_fuzzy := {| lcond := 2; is_null := false; is_else := false; lm := 1 # 20; lu := 1 # 5; tf_col := Some 0%nat;
-                          tf_w := 1; tf_min_u := 3 # 10; disable_exact_detect := false; exact_col := None |}.
+                          tf_w := 1; tf_min_u := 3 # 10; disable_exact_detect := false; exact_cols := [] |}.
 Definition ex_inf := {| lcond := 3; is_null := false; is_else := false; lm := 1 # 2; lu := 0; tf_col := None;
-                        tf_w := 1; tf_min_u := 0; disable_exact_detect := false; exact_col := None |}.
+                        tf_w := 1; tf_min_u := 0; disable_exact_detect := false; exact_cols := [] |}.
 Definition ex_else := {| lcond := 9; is_null := false; is_else := true; lm := 1 # 10; lu := 9 # 10; tf_col := None;
-                         tf_w := 1; tf_min_u := 0; disable_exact_detect := false; exact_col := None |}.
+                         tf_w := 1; tf_min_u := 0; disable_exact_detect := false; exact_cols := [] |}.
 Definition ex_ls := [ex_null; ex_exact; ex_fuzzy; ex_inf; ex_else].
 Definition ex_pow (b e : Q) : Q := if Qeq_bool e 1 then b else 1.
 Definition ex_tfs (k : nat) : option Q * option Q := (Some (1 # 4), None).
+
+(* forename AND surname exact listed first (u = 1/100) does not supply the u of the surname TF adjustment;
+   the single-column surname level (u = 1/10) does *)
+Definition ex_and := {| lcond := 5; is_null := false; is_else := false; lm := 1 # 2; lu := 1 # 100; tf_col := None;
+                        tf_w := 1; tf_min_u := 0; disable_exact_detect := false; exact_cols := [0%nat; 1%nat] |}.
+Example C02_example_u_exact :
+  u_exact [ex_null; ex_and; ex_fuzzy; ex_exact; ex_else] ex_fuzzy = Some (1 # 10) /\
+  u_exact [ex_null; ex_and; ex_fuzzy; ex_else] ex_fuzzy = None.
+Proof. vm_compute. auto. Qed.
 
 (* numbering -1,3,2,1,0; a pair whose exact and fuzzy conditions are both TRUE gets the
    exact level (3); NULL on the null level's condition does not fire it *)
